@@ -177,6 +177,20 @@ func binop(op string, a, b interface{}) (interface{}, bool) {
 		return arithC64(op, x, b.(complex64))
 	case complex128:
 		return arithC128(op, x, b.(complex128))
+	case string:
+		y := b.(string)
+		switch op {
+		case "MinBetween":
+			if x < y {
+				return x, true
+			}
+			return y, true
+		case "MaxBetween":
+			if x > y {
+				return x, true
+			}
+			return y, true
+		}
 	}
 	return nil, false
 }
